@@ -76,6 +76,15 @@ Lemma contains_refuted :
    print [Hole #"1" None; EscL; Text #"abc"; EscR] = #"{1}{{abc}}" /\ contains_named #"{1}{{abc}}" = true).
 Proof. repeat split; vm_compute; reflexivity. Qed.
 
+(* ---- observation: a LOGJ_ expression containing ':' is cut at the colon ------------------------ *)
+(* LOGJ_INFO(l, "m", ns::v) generates "m {ns::v}": the name becomes "ns" and "::v" a format spec
+   (replayed on the real code: the statement cannot be formatted); names with ':' are outside
+   [wf_tpl] *)
+Lemma logj_colon_observation :
+  scan #"m {ns::v}" = (#"m {::v}", [(#"ns", #"::v")]) /\
+  scan #"m {flag ? a : b}" = (#"m {: b}", [(#"flag ? a ", #": b")]).
+Proof. split; vm_compute; reflexivity. Qed.
+
 (* ---- non-vacuity ------------------------------------------------------------------------------ *)
 (* a template with every token kind in most adjacencies satisfies the hypotheses of scan_print,
    contains_agrees, text_clause and pairs_clause *)
